@@ -109,12 +109,6 @@ func c08Fixtures() {
 	}
 	c08Once = true
 	c08Shared()
-	c08Opts = []*ojg.Options{
-		{Sort: true}, {Sort: true, Indent: 2}, {Sort: true, OmitNil: true, OmitEmpty: true}, {Sort: true, UseTags: true}, {Sort: true, KeyExact: true, Indent: 1},
-		{Sort: true, NestEmbed: true, OmitEmpty: true}, {Sort: true, Tab: true, UseTags: true, OmitNil: true},
-		{Sort: true, CreateKey: "type"}, {Sort: true, CreateKey: "^", FullTypePath: true}, {Sort: true, CreateKey: "type", FullTypePath: true, OmitNil: true, KeyExact: true},
-		{Sort: true, BytesAs: ojg.BytesAsBase64, TimeFormat: "nano"}, {Sort: true, TimeMap: true, CreateKey: "type"},
-	}
 	c08Docs = [][]byte{
 		[]byte(`{"a":1,"b":[1,2,3],"c":{"d":2,"e":[{"x":"y"},{"x":"z","d":5}]}}`), []byte(`[1,2.5,"s",null,true,{"k":[]}]`), []byte(`{"a":{"d":1},"c":[{"d":3},{"d":0}]}`),
 		[]byte(`"just a string"`), []byte(`123456789012345678901234567890`), []byte(`{"a":`), []byte(`[1,2`), []byte(`{"s":"é\né\\","t":[[],[[]],{}]}`), []byte(`1 2 3`), []byte(``),
@@ -128,6 +122,13 @@ func c08Fixtures() {
 // constant, compiling a pattern, caching a plan) must meet its first uses concurrently, not in a warm-up.
 func c08Shared() {
 	c08Exprs, c08Scripts = c08Exprs[:0:0], c08Scripts[:0:0]
+	// (the option values the tasks pass by pointer are shared objects too: built from literals, never used before)
+	c08Opts = []*ojg.Options{
+		{Sort: true}, {Sort: true, Indent: 2}, {Sort: true, OmitNil: true, OmitEmpty: true}, {Sort: true, UseTags: true}, {Sort: true, KeyExact: true, Indent: 1},
+		{Sort: true, NestEmbed: true, OmitEmpty: true}, {Sort: true, Tab: true, UseTags: true, OmitNil: true},
+		{Sort: true, CreateKey: "type"}, {Sort: true, CreateKey: "^", FullTypePath: true}, {Sort: true, CreateKey: "type", FullTypePath: true, OmitNil: true, KeyExact: true},
+		{Sort: true, BytesAs: ojg.BytesAsBase64, TimeFormat: "nano"}, {Sort: true, TimeMap: true, CreateKey: "type"},
+	}
 	// the first six are plain paths (also used as Set targets), the rest exercise every filter feature
 	for _, s := range []string{"$.a", "$.b[1]", "$..d", "$.b[*]", "$['a','c']", "$.b[0:2]", "$.b[?(@ > 1)]", "$.c[?(@.d > 1)].d", "$.*", "$..[?(@.d)]", "$.b[-1]", "$.c.e[?(@.x == 'y')]", "$.c[?(length(@) > 0)]",
 		"$.c.e[?(@.x =~ 'y|q')]", "$..[?(search(@.x, 'z'))]", "$.b[?(@ in [1,3])]", "$.c.e[?(@.x ~= /^[yz]$/)]", "$.c.e[?(match(@.x, '.'))]", "$.c.e[?(@.d exists true)]", "$.b[?(@ + 1 > 2)]", "$.c.e[?(@.x =~ 'z')].d", "$.c.e[?(count(@.*) > 1)]"} {
